@@ -137,5 +137,30 @@ def run(fx, rep):
     bodies = [x for x in sorted(fx.bodies.values(), key=lambda y: (y.loc(), y.path)) if x.crate == 'cel_interpreter' and x.raw['kind'] != 'Promoted' and not x.is_derived() and x.loc().startswith('interpreter/src/json.rs')]
     edges = P.audit(fx, rep, 'R3', bodies, ledger, 'json')
     rep.ok('R3', 'scanned', 'interpreter/src/json.rs', '%d bodies scanned, %d panic edges' % (len(bodies), len(edges)))
+    # ---------------- R4 the text of a key
+    rep.rule('R4', 'object members are keyed by the plain Display text of the key payload (Key::fmt writes "{}" of the payload, nothing else)')
+    kb = fx.bodies.get('<cel_interpreter::objects::Key as std::fmt::Display>::fmt')
+    if kb is None:
+        raise F.Lost('Display for Key not found')
+    rep.analysed(kb)
+    kpv = F.Prov(kb, transparent={})
+    arms = {}
+    for bi, t in kb.calls():
+        if F.norm_callee(t) == 'std::fmt::Arguments::new':
+            tmpl = sorted(str(x) for x in kpv.of_operand(t['args'][0]))
+            parts = []
+            for x in kpv.of_operand(t['args'][1]):
+                if x[0] == 'agg':
+                    for e in x[2]:
+                        if e[0] == 'call' and e[1] == 'core::fmt::rt::Argument::new_display' and e[2][0][0] == 'f' and e[2][0][1][0] == 'dc' and e[2][0][1][1] == ('param', 1):
+                            parts.append(e[2][0][1][2])
+                        else:
+                            parts.append('? ' + F.term_str(e)[:40])
+            arms[tuple(parts)] = tmpl
+    other = sorted({F.norm_callee(t) or '?' for bi, t in kb.calls() if (F.norm_callee(t) or '') not in ('std::fmt::Arguments::new', 'core::fmt::rt::Argument::new_display', 'std::fmt::Formatter::write_fmt')})
+    plain = ["('const', ('text', 'b\"\\\\xc0\\\\x00\"'))"]
+    okk = set(arms) == {('Int',), ('Uint',), ('Bool',), ('String',)} and all(v == plain for v in arms.values()) and not other
+    rep.check(okk, 'R4', 'key-text/plain-display', kb.loc(), 'each variant: write!(f, "{}", payload)',
+              'Display for Key renders %s%s: JSON member names are no longer the plain text of the key' % ({k: v for k, v in arms.items()}, (' and calls %s' % other) if other else ''))
     rep.floor('R1', 12 if 'chrono' not in feats else 14)
     rep.floor('R2', 4)
